@@ -11,7 +11,7 @@ import random, json, itertools
 from vlib import *
 
 CFG = """SPECIFICATION Spec
-INVARIANTS NotInverts FalsyIsNotTruthy MalformedNeverPasses
+INVARIANTS NotInverts FalsyIsNotTruthy MalformedNeverPasses DerivedNarrows
 CHECK_DEADLOCK FALSE
 """
 
@@ -87,6 +87,8 @@ def rs(c, top=False):
     if k == "typed":
         return "(s:make-validator \"t\" s:%s%s)" % (c["k"], "".join(" " + rs(x) for x in c["cs"])) if c["k"] in TYPES else \
                "(s:make-validator \"t\" %s%s)" % (json.dumps(c["k"]), "".join(" " + rs(x) for x in c["cs"]))
+    if k == "derived":
+        return "(s:make-validator \"t\" %s%s)" % (rs(c["g"][0]), "".join(" " + rs(x) for x in c["cs"]))
     if k == "typename":
         return "s:" + c["k"] if c["k"] in TYPES else json.dumps(c["k"])
     if k == "bad":
@@ -118,6 +120,7 @@ def rs(c, top=False):
 
 def TN(t): return C("typename", k=t)
 def TY(t, *cs): return C("typed", k=t, cs=list(cs))
+def DER(base, *cs): return C("derived", g=[base], cs=list(cs))
 
 
 def atoms():
@@ -192,6 +195,17 @@ def _run(V_, work, tier):
         for c in at + comp + bads():
             schemas.append(TY(ty, c))
     schemas.append(TY("nosuchtype"))
+    # derived types: a validator in the TYPE position narrowed by further constraints (well-formed and malformed), nested twice,
+    # under s:not and as the guard of s:when
+    hk_ = C("haskey", k="a", cs=[TN("int")])
+    ders = [DER(TY("int", C("gt", n=0)), C("lt", n=2)), DER(TY("int"), C("gt", n=0), C("lt", n=3)), DER(TY("string"), C("lengt", n=1)), DER(TY("number", C("positive"))),
+            DER(TY("sorted-map", hk_), C("mayhavekey", k="b", cs=[TN("int")])), DER(DER(TY("int"), C("gt", n=0)), C("lt", n=3)), DER(TY("any"), C("in", vs=[I(2), S("ab")])),
+            DER(TY("array"), C("of", cs=[TN("int")]), C("lengt", n=1))]
+    for b in bads():
+        ders += [DER(TY("int"), b), DER(TY("int", C("gt", n=0)), C("lt", n=5), b), DER(TY("int", b), C("lt", n=5))]
+    for d in list(ders):
+        ders += [TY("any", C("not", g=[d])), TY("sorted-map", C("when", k="a", g=[d], k2="b", cs=[C("positive")]))]
+    schemas += ders
     pool = at + comp
     npairs = 6000 if thorough else 900
     for _ in range(npairs):
